@@ -383,6 +383,7 @@ func (p *Prefork) doCommand() (*exec.Cmd, error) {
 }
 
 type childExit struct {
+	cmd *exec.Cmd
 	err error
 	pid int
 }
@@ -502,7 +503,7 @@ func (p *Prefork) prefork(addr string) (err error) { //nolint:gocyclo
 	var wg sync.WaitGroup
 	startWait := func(cmd *exec.Cmd, pid int) {
 		wg.Go(func() {
-			result := childExit{pid: pid, err: cmd.Wait()}
+			result := childExit{cmd: cmd, pid: pid, err: cmd.Wait()}
 
 			// Apply the crash-loop backoff here, per child, before reporting
 			// the exit. Sleeping in the supervision loop instead would
@@ -565,7 +566,13 @@ func (p *Prefork) prefork(addr string) (err error) { //nolint:gocyclo
 
 	var exitedProcs int
 	for sig := range sigCh {
-		delete(childProcs, sig.pid)
+		// The exit is reported after the child was reaped (and after
+		// RecoverInterval), so the OS may already have handed its PID to a
+		// child spawned in the meantime: only forget the entry if it still
+		// belongs to the child that exited.
+		if childProcs[sig.pid] == sig.cmd {
+			delete(childProcs, sig.pid)
+		}
 
 		if sig.err != nil {
 			p.logger().Printf("prefork: child PID %d exited: %v", sig.pid, sig.err)
